@@ -131,7 +131,8 @@ func prgSampling(args []string) int {
 	res = append(res, samplingOut{"sampled-large-n", ev, v})
 	v, ev = guard("rejection runs", func() ([]prgx.Violation, int) { return prgx.RejectionRuns(*seed) })
 	res = append(res, samplingOut{"rejection-runs", ev, v})
-	res = append(res, samplingOut{"arguments", 20, prgx.SamplingArgs(*seed)})
+	v, ev = guard("argument validation", func() ([]prgx.Violation, int) { return prgx.SamplingArgs(*seed), 20 })
+	res = append(res, samplingOut{"arguments", ev, v})
 	v, ev = guard("UintN sequences on one generator", func() ([]prgx.Violation, int) { return prgx.UintNSequences(*seed, 10*(*per)) })
 	res = append(res, samplingOut{"uintn-sequences", ev, v})
 	v, ev = guard("samplers on byte tapes", func() ([]prgx.Violation, int) { return prgx.SamplersOnTapes(*seed, 1+(*per)/10) })
